@@ -113,6 +113,10 @@ inductive IterEnd | eof | err
   deriving Repr, DecidableEq
 
 /--
+(The stream `s` is the *decompressed* input.  When `tar_open_stream` has put a decompressor in front — `tar->compressed`, /repo
+d69b61b — `it_next` reads the rest of the compressed stream at the end of the archive and turns a decompressor error into a
+failure; on the byte stream modelled here that drain changes nothing: whatever follows the end marker is ignored.)
+
 The directory iterator driven like tar2sqfs drives it: `next`, read the file stream of every regular file
 to its end, `next`, …  `skip` = `record_size` + `padding` still to be skipped before the next header.
 -/
